@@ -77,6 +77,7 @@ def observe1 (o : Op) (bytes : List UInt8) : String :=
     else if site.startsWith "uninit@" then "nondet:" ++ site
     else "ub:" ++ site
   | .error (.hang _) => "timeout"
+  | .error (.fuel _) => "timeout"
 
 def ext (b : UInt8) : List UInt8 := List.replicate 4096 b
 
